@@ -51,10 +51,16 @@ def run(ck, ctx):
     _r161(ck, tree)
     _r162(ck, tree)
     _r163(ck, tree)
+    ck.rule("R16.6", "each redis.call / redis.pcall is translated from its own arguments only: the argument vector handed to the command "
+                     "translator (parse_lua_command_bytes) is built inside that callback invocation (a call result or a fresh local), never "
+                     "taken from state the callback captured - a buffer that outlives the call keeps the parts of an invocation that failed "
+                     "half-way (nil/boolean/table argument), and the next redis.call of the script runs a different command than the "
+                     "script wrote")
     for cfg in ctx.configs:
         prog = ctx.prog(cfg)
         _r164(ck, prog, cfg)
         _r165(ck, prog, cfg)
+        _r166(ck, prog, cfg)
 
 
 # ------------------------------------------------------------------------------------------------
@@ -466,3 +472,34 @@ def _r165(ck, prog, cfg):
                          "valid UTF-8 are replaced on the script path, so the same command stores different bytes than when a client sends it"
                          % ctor, f.where(t["ln"]), detail="SDS::new(raw bytes)")
     ck.floor("R16.5" + _tag(cfg), n, 1)
+
+
+def _is_captured(f, name):
+    """is `name` a variable the closure/coroutine captured (a field of its environment)?"""
+    for n in f.names:
+        if n["n"] == name and n["pl"]["l"] == 1 and n["pl"].get("p"):
+            return True
+    return False
+
+
+def _r166(ck, prog, cfg):
+    n = 0
+    for f in prog.lib_fns():
+        if f.file != "src/redis/executor/script_ops.rs" or "::tests::" in f.id:
+            continue
+        for b, t in f.calls():
+            if not is_callee(t, r"parse_lua_command_bytes$"):
+                continue
+            n += 1
+            a = src_of_operand(f, t["args"][1], through_calls=TRANSPARENT + (r"Deref>::deref$", r"DerefMut>::deref_mut$", r"Try>::branch$", r"as_slice$",
+                                                                              r"RefCell::<.*>::borrow(_mut)?$", r"unwrap(_or_default)?$"))
+            own = a.kind == "call" or (a.kind in ("path", "multi") and not _is_captured(f, a.root) and a.root != "self")
+            fid = re.sub(r"\{closure#\d+\}", "{closure}", f.id).split("::")[-3:]
+            ck.check(own, "R16.6", "%s:translator-input#%d%s" % ("::".join(fid), n, _tag(cfg)),
+                     "the command parts handed to parse_lua_command_bytes come from `%s`, state captured by the callback rather than built from this "
+                     "invocation's arguments: what an earlier, failed redis.call left there becomes part of this command" % (a.root or a.path()),
+                     f.where(t["ln"]), detail="built in this invocation (%s)" % (callee(a.term).rsplit("::", 1)[-1] if a.kind == "call" else a.root))
+    if n == 0 and cfg == "nodefault":
+        ck.ok("R16.6", "lua-not-compiled" + _tag(cfg), "the `lua` feature is off in this configuration")
+        return
+    ck.floor("R16.6" + _tag(cfg), n, 2)
